@@ -116,10 +116,6 @@ func (p c04) emit(t *core.T, d model.MDep, sp model.Spacer, used map[[2]string]i
 			for k, n := range used {
 				t.CoverN(fmt.Sprintf("slot[%s]=%q", k[0], k[1]), int64(n))
 			}
-		} else {
-			for k := range used {
-				t.Cover(fmt.Sprintf("slot-in-failing-case[%s]=%q", k[0], k[1]))
-			}
 		}
 	})
 }
@@ -420,7 +416,8 @@ func (c04) malform(r *core.Rand) [][2]string {
 		{"second-version", pre + name + " (>= 1.0)" + r.Pick([]string{" ", "", " [amd64] "}) + "(<< 2.0)" + post},
 		{"second-arch", pre + name + " [amd64]" + r.Pick([]string{" ", "", " (>= 1) ", " <stage1> "}) + "[i386]" + post},
 		{"unknown-operator", pre + name + " (" + badop + sp + "1.0)" + post},
-		{"two-names", pre + name + r.Pick([]string{" ", "  ", " (>= 1) ", " [amd64] ", " <stage1> "}) + other + post},
+		{"two-names", pre + name + r.Pick([]string{" ", "  ", " (>= 1) ", " [amd64] ", " <stage1> ", "\n", "\r\n", "\t", "\n ", " \n", "\n\n"}) + other + post},
+		{"two-names", r.Pick([]string{"", other + ", ", other + " | "}) + name + r.Pick([]string{"\n", "\r\n", "\t", " "}) + other + r.Pick([]string{"", ", " + name, "\n"})},
 	}
 }
 
